@@ -60,7 +60,7 @@ struct ReplyWorld : World {
 			static const int kinds[] = {OP_ID, OP_ID, OP_ARM, OP_ARM, OP_ARM, OP_REPLY, OP_REPLY, OP_REPLY, OP_DEFER, OP_DEFER, OP_DREPLY, OP_DREPLY, OP_DRELEASE, OP_ADDREF, OP_UNREF, OP_UNREF, OP_NEWCTX};
 			op.kind = r.pick(kinds);
 			op.a = (int64_t) r.next();            // id bits
-			op.b = r.below(10) | (r.below(6) << 8); // width, boundary selector
+			op.b = r.below(10) | (r.below(8) << 8); // width, boundary selector
 			op.c = r.below(8);
 			if (rej && r.chance(1, 3)) { op.fault = FL_REJECT; op.fa = r.range(1, 2); }
 			else if (allocf && r.chance(1, 3)) { op.fault = FL_ALLOC; op.fa = 1; }
@@ -72,6 +72,8 @@ struct ReplyWorld : World {
 		switch (sel) {
 		case 0: return 0; case 1: return 1; case 2: return lim; case 3: return lim + 1;
 		case 4: return w >= 8 ? ~0ull : ((1ull << (8 * w)) - 1);
+		case 5: return w >= 8 ? ~0ull - 1 : (1ull << (8 * w)) + (((uint64_t) bits >> 40) % 3 == 0 ? 0 : ((uint64_t) bits >> 8) % ((1ull << (w ? 8 * (w - 1) : 0)) + 1)); // just beyond the width
+		case 6: return w >= 7 ? (uint64_t) bits : (uint64_t) bits >> (64 - 8 * (w + 1));                                   // random, one byte wider than the header
 		default: return (uint64_t) bits >> (w >= 8 ? 0 : 64 - 8 * (w ? w : 1));
 		}
 	}
@@ -103,7 +105,7 @@ struct ReplyWorld : World {
 		for (const Op &op : p.ops) {
 			uint64_t failn = op.fault == FL_ALLOC ? 1 : 0;
 			T.reject_next = op.fault == FL_REJECT ? (int) std::max<int64_t>(op.fa, 1) : 0;
-			unsigned w = (unsigned) (op.b & 0xff) % 10, sel = (unsigned) ((op.b >> 8) & 0xff) % 6;
+			unsigned w = (unsigned) (op.b & 0xff) % 10, sel = (unsigned) ((op.b >> 8) & 0xff) % 8;
 			int outcome = 0;
 			st.hit(std::string("op:") + OPS[op.kind]);
 			switch (op.kind) {
@@ -124,7 +126,7 @@ struct ReplyWorld : World {
 			case OP_ARM: {
 				if (!ctx || armed >= 0) break;
 				unsigned aw = 1 + w % (unsigned) std::min<size_t>(ctxlen, 8);
-				uint64_t id = pick_id(op.a, aw, sel == 3 || sel == 4 ? 2 : sel);
+				uint64_t id = pick_id(op.a, aw, sel == 3 || sel == 4 || sel == 5 || sel == 6 ? 7 : sel);
 				// ids of outstanding requests are unique (the requester reserves them)
 				bool dup = false; for (auto &q : T.reqs) if (!q.closed && q.id == id && q.width == aw) dup = true;
 				if (dup) break;
